@@ -486,19 +486,36 @@ class DictList(list):
         if isinstance(i, slice):
             # In this case, y needs to be a list. We will ensure all
             # the id's are unique
-            for obj in y:  # need to be setting to a list
-                self._check(obj.id)
-                # Insert a temporary placeholder so we catch the presence
-                # of a duplicate in the items being added
-                self._dict[obj.id] = None
-            list.__setitem__(self, i, y)
+            y = list(y)
+            placeholders = []
+            try:
+                for obj in y:  # need to be setting to a list
+                    self._check(obj.id)
+                    # Insert a temporary placeholder so we catch the presence
+                    # of a duplicate in the items being added
+                    self._dict[obj.id] = None
+                    placeholders.append(obj.id)
+                list.__setitem__(self, i, y)
+            except Exception:
+                # leave the index as it was
+                for the_id in placeholders:
+                    self._dict.pop(the_id, None)
+                raise
             self._generate_index()
             return
-        # in case a rename has occurred
-        if self._dict.get(self[i].id) == i:
-            self._dict.pop(self[i].id)
+        # the positions stored in the index are never negative
+        if i < 0:
+            i += len(self)
+            if i < 0:
+                raise IndexError("list assignment index out of range")
+        old_id = self[i].id
         the_id = y.id
-        self._check(the_id)
+        # replacing an element by one with the same id is fine
+        if the_id != old_id or self._dict.get(old_id) != i:
+            self._check(the_id)
+        # in case a rename has occurred
+        if self._dict.get(old_id) == i:
+            self._dict.pop(old_id)
         list.__setitem__(self, i, y)
         self._dict[the_id] = i
 
